@@ -551,7 +551,7 @@ func c09rRun(t *testing.T, c c09rCase) (viol string) {
 	leak, p := vfBubble(t, func() {
 		lp := logging.NewLoggerProvider(vfNoop(), config.NewMockConfigProvider(config.S2SProxyConfig{}))
 		mc := &config.MemberlistConfig{Enabled: true, NodeName: "node-a", ProxyAddresses: map[string]string{}}
-		if c.Remote == "stream" || c.Remote == "nostream" {
+		if c.Remote == "stream" || c.Remote == "nostream" || c.Remote == "otherpair" {
 			mc.ProxyAddresses["node-b"] = "127.0.0.1:1"
 		}
 		sm := NewShardManager(mc, config.ShardCountConfig{Mode: config.ShardCountRouting, LocalShardCount: 2, RemoteShardCount: 2}, encryption.TLSConfig{}, lp).(*shardManagerImpl)
@@ -578,6 +578,19 @@ func c09rRun(t *testing.T, c c09rCase) (viol string) {
 			ps.senders[peerStreamKey{targetShard: shard, sourceShard: other}] = &intraProxyStreamSender{logger: vfNoop(), shardManager: sm, peerNodeName: "node-b", targetShardID: shard, sourceShardID: other, sourceStreamServer: peerServer, streamID: "vf-peer-sender"}
 			// acks to a remote source travel on the client stream opened to the peer for (client=target of the ack's data flow, server=addressed shard)
 			ps.receivers[peerStreamKey{targetShard: other, sourceShard: shard}] = &intraProxyStreamReceiver{logger: vfNoop(), shardManager: sm, peerNodeName: "node-b", targetShardID: other, sourceShardID: shard, streamClient: peerClient, streamID: "vf-peer-receiver"}
+			sm.intraMgr.streamsMu.Lock()
+			sm.intraMgr.peers["node-b"] = ps
+			sm.intraMgr.streamsMu.Unlock()
+		}
+		if c.Remote == "otherpair" {
+			// the peer is known and has streams - but only for ANOTHER shard pair
+			ps := &peerState{receivers: map[peerStreamKey]*intraProxyStreamReceiver{}, senders: map[peerStreamKey]*intraProxyStreamSender{}, recvShutdown: map[peerStreamKey]channel.ShutdownOnce{}}
+			x := history.ClusterShardID{ClusterID: 2, ShardID: 2}
+			y := history.ClusterShardID{ClusterID: 1, ShardID: 2}
+			ps.senders[peerStreamKey{targetShard: x, sourceShard: y}] = &intraProxyStreamSender{logger: vfNoop(), shardManager: sm, peerNodeName: "node-b", targetShardID: x, sourceShardID: y,
+				sourceStreamServer: newVFServerStream(context.Background(), "peer-other", nil), streamID: "vf-peer-other-sender"}
+			ps.receivers[peerStreamKey{targetShard: y, sourceShard: x}] = &intraProxyStreamReceiver{logger: vfNoop(), shardManager: sm, peerNodeName: "node-b", targetShardID: y, sourceShardID: x,
+				streamClient: &vfClientStream{vfStream: newVFStream[vfResp, vfReq](context.Background(), "peerc-other")}, streamID: "vf-peer-other-receiver"}
 			sm.intraMgr.streamsMu.Lock()
 			sm.intraMgr.peers["node-b"] = ps
 			sm.intraMgr.streamsMu.Unlock()
@@ -769,7 +782,7 @@ func TestVF_C09_Routing(t *testing.T) {
 	}
 	for _, kind := range []string{"message", "ack", "ack_noforward"} {
 		for _, local := range []string{"none", "room", "full", "closed"} {
-			for _, remote := range []string{"unknown", "noaddr", "stream", "nostream"} {
+			for _, remote := range []string{"unknown", "noaddr", "stream", "nostream", "otherpair"} {
 				for _, sd := range []bool{false, true} {
 					run(c09rCase{Kind: kind, Local: local, Remote: remote, Shutdown: sd})
 				}
